@@ -1,7 +1,63 @@
 -- C10: Merkle openings verify for committed leaves and only for them (property theorems)
-import Winter.Model.Merkle
+import WinterProofs.Lemmas.C10Single
 
 namespace WinterProofs.C10
 open Model.Merkle
+
+variable {D : Type}
+
+/-! ## Single openings (`MerkleTree::prove` / `MerkleTree::verify`) -/
+
+/-- the tree `MerkleTree::new` builds -/
+def treeOf (H : Hasher D) (leaves : List D) : Tree D := { nodes := buildNodes H leaves, leaves := leaves }
+
+/-- Completeness: in every tree over `2^d` leaves (`1 ≤ d ≤ 63`, i.e. every tree that fits `usize`)
+    the path produced for every in-range position has `d + 1` nodes, starts with the committed leaf
+    and verifies against the root. -/
+theorem single_complete (H : Hasher D) [DecidableEq D] (leaves : List D) (d : Nat)
+    (hd1 : 1 ≤ d) (hd2 : d ≤ 63) (hl : leaves.length = 2 ^ d) (i : Nat) (hi : i < 2 ^ d) :
+    ∃ root path, Tree.new H leaves = .ok (treeOf H leaves) ∧ (treeOf H leaves).root = .ok root ∧
+      prove (treeOf H leaves) i = .ok path ∧
+      path.length = d + 1 ∧ path[0]? = leaves[i]? ∧ verify H root i path = .ok () := by
+  have wf : TreeWF H (treeOf H leaves) d := tree_wf H leaves d hd1 hl
+  obtain ⟨root, hr1, hr2⟩ := root_of_wf H _ d wf
+  obtain ⟨path, h1, h2, h3, h4⟩ := single_complete_wf H _ d wf hd2 i hi root hr1
+  exact ⟨root, path, tree_new_ok H leaves d hd1 hl, hr2, h1, h2, h3, h4⟩
+
+/-- Binding: if `merge` is collision free, a path of the tree's length that verifies against the
+    root of a tree for an in-range position is exactly the path the tree produces for that position;
+    in particular the leaf it claims is the committed one.  (The length hypothesis is necessary:
+    `verify` takes the depth from the path, and a shorter path opens an internal node as if it were
+    a leaf — see `single_binding_needs_length`.) -/
+theorem single_binding (H : Hasher D) [DecidableEq D] (inj : MergeInj H) (leaves : List D) (d : Nat)
+    (hd1 : 1 ≤ d) (hd2 : d ≤ 63) (hl : leaves.length = 2 ^ d) (root : D)
+    (hroot : (treeOf H leaves).root = .ok root) (i : Nat) (hi : i < 2 ^ d)
+    (path : List D) (hlen : path.length = d + 1) (hv : verify H root i path = .ok ()) :
+    prove (treeOf H leaves) i = .ok path ∧ path[0]? = leaves[i]? := by
+  have wf : TreeWF H (treeOf H leaves) d := tree_wf H leaves d hd1 hl
+  obtain ⟨root', hr1, hr2⟩ := root_of_wf H _ d wf
+  rw [hr2] at hroot
+  injection hroot with hroot
+  subst hroot
+  exact single_binding_wf H inj _ d wf hd2 root' hr1 i hi path hlen hv
+
+/-- `verify` never panics, whatever the root, the position and the shape of the path: it accepts or
+    returns an error (false on the pinned tree: paths of fewer than 2 or more than 64 nodes and
+    positions close to `usize::MAX` panicked; repaired by cd5b252 and 9b60bc5) -/
+theorem single_no_panic (H : Hasher D) [DecidableEq D] (root : D) (i : Nat) (path : List D) :
+    verify H root i path = .ok () ∨ ∃ e, verify H root i path = .err e :=
+  verify_total H root i path
+
+/-- shape and position mutations of a single opening are errors: a path of fewer than 2 or more
+    than 64 nodes is invalid, and a position beyond the `2^(len-1)` leaves a path of that length
+    speaks about is out of bounds (on the pinned tree `i + k·2^depth` was accepted with the path of `i`) -/
+theorem single_shape_rejected (H : Hasher D) [DecidableEq D] (root : D) (i : Nat) (path : List D) :
+    ((path.length < 2 ∨ path.length > 64) → verify H root i path = .err .invalid) ∧
+    (2 ≤ path.length → path.length ≤ 64 → i ≥ 2 ^ (path.length - 1) → verify H root i path = .err .oob) := by
+  refine ⟨fun h => by unfold verify; rw [if_pos (by simpa [usizeBits] using h)], fun h1 h2 h3 => ?_⟩
+  unfold verify
+  rw [if_neg (by simp [usizeBits]; omega), pow2_ok (by omega)]
+  simp only [Res.ok_bind]
+  rw [if_pos h3]
 
 end WinterProofs.C10
